@@ -229,11 +229,11 @@ theorem uripostStep_decreases (fixed : Bool) (urlOk : Bytes → Bool) (s : Bytes
 
 theorem rawStep_decreases (fixed : Bool) (s : Bytes) : Step.decreases s (rawStep fixed s) := by
   unfold rawStep
-  cases hr : readLine s with
+  cases hr : readLineU s with
   | none => simp [Step.decreases]
   | some p =>
     obtain ⟨line, rest⟩ := p
-    have hlt := readLine_lt hr
+    have hlt := readLineU_lt hr
     simp only
     unfold rawLine
     simp only
@@ -302,7 +302,7 @@ theorem uripostStep_clean (urlOk : Bytes → Bool) (s : Bytes) : Step.clean (uri
 
 theorem rawStep_clean (s : Bytes) : Step.clean (rawStep true s) := by
   unfold rawStep
-  cases hr : readLine s with
+  cases hr : readLineU s with
   | none => simp [Step.clean]
   | some p =>
     obtain ⟨line, rest⟩ := p
@@ -401,7 +401,7 @@ theorem uripostStep_fail_bad (fixed : Bool) (urlOk : Bytes → Bool) (s : Bytes)
 theorem rawStep_fail_bad (fixed : Bool) (s : Bytes) (e : End)
     (h : rawStep fixed s = .fail e) : End.bad e := by
   unfold rawStep at h
-  cases hr : readLine s with
+  cases hr : readLineU s with
   | none => simp [hr] at h
   | some p =>
     obtain ⟨line, rest⟩ := p
@@ -493,7 +493,7 @@ def Step.keeps (P : Bytes → Prop) : Step → Prop
 /-- compositionality of runs: if the run over `good` ends cleanly having consumed everything, then the run over
 `good ++ junk` delivers good's entries and continues exactly like the run over `junk`.
 `P` is an invariant of the unread part under which a non-final step does not look beyond `good`
-(`True` for the raw decoder, `Terminated` for uripost, whose last line may lack its newline). -/
+(`Terminated` for uripost and raw, whose last line may lack its newline). -/
 theorem runSteps_append (step : Bytes → Step) (hdec : ∀ s, Step.decreases s (step s))
     (hnf : ∀ s e, step s = .fail e → End.bad e)
     (P : Bytes → Prop) (hP : ∀ s, P s → Step.keeps P (step s))
@@ -655,16 +655,59 @@ theorem rawLine_appendOk (fixed : Bool) (line rest junk : Bytes) :
         · simp [Step.appendOk]
     · simp [Step.appendOk]
 
-theorem rawStep_appendOk (fixed : Bool) (good junk : Bytes) :
+theorem rawLine_keeps (fixed : Bool) (line rest : Bytes) (h : Terminated rest) :
+    Step.keeps Terminated (rawLine fixed line rest) := by
+  unfold rawLine
+  simp only
+  split
+  · exact h
+  · split
+    · split
+      · exact h
+      · split
+        · rename_i hb
+          have := (readBody_ok_split hb).2.2.2.2
+          simp only [Step.keeps]
+          rw [this]; exact h.drop _
+        · simp [Step.keeps]
+    · simp [Step.keeps]
+
+theorem rawStep_keeps (fixed : Bool) (s : Bytes) (h : Terminated s) :
+    Step.keeps Terminated (rawStep fixed s) := by
+  unfold rawStep
+  by_cases hne : s = []
+  · subst hne; simp [readLineU, cut, Step.keeps]
+  · obtain ⟨line, rest, hr, _, ht⟩ := readLineU_terminated h hne
+    simp only [hr]
+    exact rawLine_keeps fixed line rest ht
+
+theorem rawStep_appendOk (fixed : Bool) (good junk : Bytes) (h : Terminated good) :
     Step.appendOk junk (rawStep fixed good) (rawStep fixed (good ++ junk)) := by
   unfold rawStep
-  cases hr : readLine good with
-  | none => simp [Step.appendOk]
+  by_cases hne : good = []
+  · subst hne; simp [readLineU, cut, Step.appendOk]
+  · obtain ⟨line, rest, hr, hc, _⟩ := readLineU_terminated h hne
+    have : readLineU (good ++ junk) = some (line, rest ++ junk) := by
+      simp [readLineU, cut_append hc junk]
+    simp only [hr, this]
+    exact rawLine_appendOk fixed line rest junk
+
+theorem rawStep_eof (fixed : Bool) (s : Bytes) (h : rawStep fixed s = .eof) : s = [] := by
+  unfold rawStep at h
+  cases hr : readLineU s with
+  | none => exact readLineU_none hr
   | some p =>
     obtain ⟨line, rest⟩ := p
-    have : readLine (good ++ junk) = some (line, rest ++ junk) := cut_append hr junk
-    simp only [this]
-    exact rawLine_appendOk fixed line rest junk
+    simp only [hr] at h
+    unfold rawLine at h
+    simp only at h
+    split at h
+    · simp at h
+    · split at h
+      · split at h
+        · simp at h
+        · split at h <;> simp at h
+      · simp at h
 
 /-! ### uri format -/
 
@@ -756,12 +799,15 @@ theorem uripostRun_append (fixed : Bool) (urlOk : Bytes → Bool) (good junk : B
   have e : (good ++ junk).length + 1 = good.length + 1 + junk.length := by simp; omega
   rw [e]; exact this
 
+theorem rawRun_rest_nil (fixed : Bool) (s : Bytes) (hend : (rawRun fixed s).end_ = .ok) : (rawRun fixed s).rest = [] :=
+  runSteps_rest_nil _ (rawStep_eof fixed) (rawStep_fail_bad fixed) _ s hend
+
 theorem rawRun_append (fixed : Bool) (good junk : Bytes)
-    (hend : (rawRun fixed good).end_ = .ok) (hrest : (rawRun fixed good).rest = []) :
+    (hend : (rawRun fixed good).end_ = .ok) (hterm : Terminated good) :
     rawRun fixed (good ++ junk) = (rawRun fixed junk).prepend (rawRun fixed good).entries := by
+  have hrest : (rawRun fixed good).rest = [] := rawRun_rest_nil fixed good hend
   have := runSteps_append (rawStep fixed) (rawStep_decreases fixed) (rawStep_fail_bad fixed)
-    (fun _ => True) (fun s _ => by cases rawStep fixed s <;> simp [Step.keeps])
-    (fun good junk _ => rawStep_appendOk fixed good junk) junk (good.length + 1) good (by omega) trivial hend hrest
+    Terminated (rawStep_keeps fixed) (rawStep_appendOk fixed) junk (good.length + 1) good (by omega) hterm hend hrest
   unfold rawRun
   have e : (good ++ junk).length + 1 = good.length + 1 + junk.length := by simp; omega
   rw [e]; exact this
